@@ -281,7 +281,10 @@ func (c *Channel) JoinPresence(ctx context.Context, p stanza.Presence, opt ...Op
 	case err := <-errChan:
 		return err
 	case roomAddr := <-joinChan:
+		// The presence handler reads addr while holding this lock.
+		c.client.managedM.Lock()
 		c.addr = roomAddr
+		c.client.managedM.Unlock()
 	case <-ctx.Done():
 		return ctx.Err()
 	}
